@@ -16,7 +16,7 @@ import numpy as np
 PROP = "C14"
 LEVEL = "exploration"
 VARIANTS = ("omp", "serial")
-CASE_TIMEOUT = 400
+CASE_TIMEOUT = 1200
 RULE = ("cases = zoo crystal x supercell x NAC (none|Wang|Gonze-Lee) x full/compact x build (OpenMP|serial); per case: run_qpoints over the full 2^3 product "
         "(eigenvectors x group velocities x dynamical matrices), band path from Gamma (with the path direction as NAC direction) with/without band connection, "
         "Mesh and IterMesh, dynamical_matrix.run, get_frequencies*, get_dynamical_matrix_at_q; yaml/hdf5 of qpoints, band and mesh parsed back; "
